@@ -169,7 +169,7 @@ type selfTestResult struct {
 // separate process.
 func selfTest(vd, repo, id string) *selfTestResult {
 	start := time.Now()
-	st := &selfTestResult{Explanation: "breaking patches (reverse patches of the ten repairs, 51 independently produced and confirmed seeded defects) must be reported; benign refactorings (59) must leave the check silent; patches are applied to a scratch copy of the current tree"}
+	st := &selfTestResult{}
 	b, err := os.ReadFile(filepath.Join(vd, "mutants", "expect.json"))
 	if err != nil {
 		st.Mismatches = append(st.Mismatches, "cannot read mutants/expect.json: "+err.Error())
@@ -180,6 +180,7 @@ func selfTest(vd, repo, id string) *selfTestResult {
 		st.Mismatches = append(st.Mismatches, "mutants/expect.json: "+err.Error())
 		return st
 	}
+	st.Explanation = fmt.Sprintf("the corpus holds %d breaking patches (reverse patches of the ten repairs and independently produced, confirmed seeded defects) and %d benign refactorings; every breaking patch the expectation file lists for this property must be reported by it, every benign patch must leave it silent; patches are applied to a scratch copy of the current tree", len(ex.Breaking), len(ex.Benign))
 	type job struct {
 		patch     string
 		wantCatch bool
